@@ -11,20 +11,20 @@ namespace CyVerif.C34
 /-- The full-strength statement: for EVERY member list and argument class the dispatcher's choice is a
 documented choice.  It is FALSE for the code as it exists (counterexamples below). -/
 def FullDispatchSpec : Prop :=
-  ∀ (below : Nat → Bool) (tys : List Ty) (an : Bool) (v : Val) (i : Nat),
+  ∀ (below : Ty → Bool) (tys : List Ty) (an : Bool) (v : Val) (i : Nat),
     mapType (sortedMembers below tys) an v = some i → i ∈ docChoice (withIdx tys) an v
 
 /-- Partial theorem: with a consistently sorted member list (`NoInv`) and outside the six excluded
 points (`Nice`), whatever `map_fused_type` returns is a member the documented rule allows
 (exact match; else the biggest int/float/complex member; else object). -/
-theorem dispatch_choice_documented_partial (below : Nat → Bool) (tys : List Ty) (an : Bool) (v : Val) (i : Nat)
+theorem dispatch_choice_documented_partial (below : Ty → Bool) (tys : List Ty) (an : Bool) (v : Val) (i : Nat)
     (hsorted : NoInv below (sortedMembers below tys)) (hnice : Nice (withIdx tys) v)
     (h : mapType (sortedMembers below tys) an v = some i) : i ∈ docChoice (withIdx tys) an v :=
   mapType_sound v (pySort_perm _ _) hsorted hnice h
 
 /-- ... and when the documented rule finds no specialisation the mapper returns None, which the single-type
 dispatcher turns into TypeError("No matching signature found"). -/
-theorem no_documented_choice_is_TypeError_partial (below : Nat → Bool) (tys : List Ty) (an : Bool) (v : Val)
+theorem no_documented_choice_is_TypeError_partial (below : Ty → Bool) (tys : List Ty) (an : Bool) (v : Val)
     (sigs : List (List Nat))
     (hsorted : NoInv below (sortedMembers below tys)) (hnice : Nice (withIdx tys) v)
     (h : docChoice (withIdx tys) an v = []) :
@@ -39,7 +39,7 @@ theorem no_documented_choice_is_TypeError_partial (below : Nat → Bool) (tys : 
   exact ⟨this, by rw [this]; rfl⟩
 
 /-- the compile-time sort only permutes the members: every member stays reachable, none is invented -/
-theorem sorted_members_perm (below : Nat → Bool) (tys : List Ty) :
+theorem sorted_members_perm (below : Ty → Bool) (tys : List Ty) :
     (sortedMembers below tys).Perm (withIdx tys) := pySort_perm _ _
 
 /-- The dispatcher's result does not depend on the order in which `__signatures__` is iterated. -/
@@ -79,7 +79,7 @@ theorem getitem_missing (sigKeys : List (String × List Nat)) (items : List Stri
 /-! ### counterexamples to the full statement (each replayed on the real code by the harness) -/
 
 /-- `id(MemoryViewSliceType) < id(cls)` as measured in a compiler process (object, builtin classes) -/
-def below0 : Nat → Bool := fun c => c == 4 || c == 5
+def below0 : Ty → Bool := fun t => t.cls == 4 || t.cls == 5
 
 /-- bool argument, members [long, bint]: `isinstance(arg, int)` is tested first (x0(True) -> 'long') -/
 theorem bool_goes_to_long_not_bint :
@@ -129,6 +129,16 @@ theorem wildcard_selects_single_member :
                params := [⟨0, some 0, 0, none, true⟩, ⟨1, some 1, 0, none, true⟩] }
              { pos := [.float, .builtin 1 true], kw := [] } = .ok [0, 1] ∧
     docChoice (withIdx [.cint 12 1 8]) true .float = [] := ⟨by rfl, by decide⟩
+
+
+/-- The member order, and with it the dispatch, depends on the ADDRESS order of the compiler's type classes
+(`PyrexType.__lt__` falls back to `id(type(self)) < id(type(other))` for memoryview types): members
+[int[:], long, double[:]], argument None: `int[:]` when `id(MemoryViewSliceType) > id(CIntType)`, `double[:]`
+otherwise.  Both orders were observed for the same source (`python -m cython` vs `Main.compile` in-process). -/
+theorem dispatch_depends_on_class_addresses :
+    mapType (sortedMembers (fun _ => false) [.mview 0 4 1 false, .cint 12 1 8, .mview 2 8 1 false]) true .none = some 0 ∧
+    mapType (sortedMembers (fun t => t.cls == 0) [.mview 0 4 1 false, .cint 12 1 8, .mview 2 8 1 false]) true .none = some 2 := by
+  decide
 
 /-! ### non-vacuity -/
 
